@@ -17,6 +17,7 @@ import KcpVerif.Lemmas.SysDrainTimer2
 import KcpVerif.Lemmas.SysDrainHead3
 import KcpVerif.Lemmas.SysDrainOrder
 import KcpVerif.Lemmas.SysDrainHead4
+import KcpVerif.Lemmas.SysDrainAll
 /-! C02 — eventual delivery: a healed network always drains the backlog. -/
 namespace KcpVerif.Props
 open KcpVerif KcpVerif.Gen KcpVerif.Kcp KcpVerif.Live
@@ -1053,5 +1054,116 @@ theorem C02_progress_step_every_head {p : Par} {s : State} {gab gba : GLink} (h 
     rw [← hhl]; exact not_behind h hs.srt hs.fix hq
   exact retG3_done h hs.live (o p.base x.sn) R T1 IA IB hT ht
     ⟨⟨x, rest, hb, rfl, hx⟩, hiv, hnf, hnw, hrb⟩ evs hsm hnow
+
+/-! ### the drain: induction over the outstanding segments (writer stopped, send queue empty)
+
+The progress step is iterated: a stage starts at a clock tick (the scheduler ticks only when the reader
+has nothing to read, so the receive queue is not full and B is not behind A's head — `SysC.QOk` is the
+only thing asked of the reader), lasts `stageLen = Rmax + IA + D + IB + D + 1` ms, and releases the head.
+Every numbered segment is acknowledged after `|snd_buf|` stages.  Run hypotheses, each a check on single
+states (`SysC.DrainHyp`; Boolean form `SysC.runChk`): fewer than 2^30 segments and `1 ≤ rcv_wnd < 2^30`
+(`Small`), the reader condition `QOk`, and `TmrOk Rmax`: the retransmission timer of the head is never
+more than `Rmax` ms ahead of the clock — the place where the unbounded RTO backoff of a segment
+(`rto += rx_rto` at every timeout, no cap in kcp-go) enters the bound.  What is NOT covered: a non-empty
+send queue (needs the window/zero-window-probe chain, `C02_drain_full` below) and the derivation of
+`TmrOk` from a bound on the number of earlier timeouts. -/
+
+open KcpVerif.Sys KcpVerif.SysC in
+/-- **drain, last segment**: one numbered segment outstanding, nothing queued, the writer has stopped —
+after the progress-step bound `WaitSnd = 0`, for ever.  Any consistent state, no other run hypothesis
+than `RunSmallH`. -/
+theorem C02_drain_last {p : Par} {s : State} {gab gba : GLink} (h : Cons p s gab gba) (hs : Side p.base s)
+    (hq : s.B.rcv_queue.length < s.B.rcv_wnd.toNat) (x : Seg) (hb : s.A.snd_buf = [x]) (hsq : s.A.snd_queue = [])
+    (R T1 IA IB : Nat) (hx : x.xmit = 0 ∨ (x.xmit ≠ 0 ∧ x.resendts = clk R)) (hT : R + IA ≤ T1 ∧ T1 < R + 2 ^ 31)
+    (hiv : s.A.interval.toNat = IA) (hnf : s.nfA ≤ T1) (hnw : s.now ≤ T1) (ht : Tm IB s)
+    (evs : List Ev) (hns : ∀ ev ∈ evs, isSend ev = false) (hsm : RunSmallH p.base s evs)
+    (hnow : T1 + s.D + IB + s.D < (Sys.run s evs).now) :
+    (Sys.run s evs).A.waitSnd = 0 :=
+  drain_last h hs hq x hb hsq R T1 IA IB hx hT hiv hnf hnw ht evs hns hsm hnow
+
+open KcpVerif.Sys KcpVerif.SysC in
+/-- **one stage of the drain**: from a consistent state whose receive queue is not full, whatever the
+run does (the writer may go on writing), after `Rmax + IA + D + IB + D` ms the send buffer is one shorter
+than it was, up to the segments numbered in the meantime. -/
+theorem C02_drain_stage {p : Par} {IA IB Rmax : Nat} {s : State} (hi : Inv p IA IB s) (hR : Rmax + IA < 2 ^ 31)
+    (hq : s.B.rcv_queue.length < s.B.rcv_wnd.toNat) (n : Nat) (hlen : s.A.snd_buf.length ≤ n + 1)
+    (evs : List Ev) (hr : RunP (DrainHyp p Rmax IA) s evs)
+    (hnow : s.now + Rmax + IA + s.D + IB + s.D < (Sys.run s evs).now) :
+    (Sys.run s evs).A.snd_buf.length ≤ n + (o p.base (Sys.run s evs).A.snd_nxt - o p.base s.A.snd_nxt) :=
+  drain_stage hi hR hq n hlen evs hr hnow
+
+open KcpVerif.Sys KcpVerif.SysC in
+/-- **`C02_drain`, send queue empty** (the induction): two fresh endpoints, ANY history `pre` of writes,
+events and network faults (loss, duplication, reordering, delay — `netRun`); in the state `s` it leaves
+the writer stops with nothing queued and the receive queue is not full.  From then on the links are fair
+(no loss after `s`) and the reader is fair (`QOk`).  Then once the clock has advanced by
+`|snd_buf| · (Rmax + IA + D + IB + D + 1)` ms, `WaitSnd = 0`, and whenever the receive queue is not full
+the receiver has handed every numbered segment to the reader's queue (`rcv_nxt = snd_nxt`). -/
+theorem C02_drain_partial (A B : Kcp) (D t0 : Nat) (ndA ndB : Bool) (hinit : ConsInit A B) (pre : List NetEv)
+    (hpre : NetNoWrap A.snd_nxt (Sys.init A B D t0 ndA ndB) pre) (Rmax : Nat) (hR : Rmax + A.interval.toNat < 2 ^ 31)
+    (hq : (netRun (Sys.init A B D t0 ndA ndB) pre).B.rcv_queue.length <
+      (netRun (Sys.init A B D t0 ndA ndB) pre).B.rcv_wnd.toNat)
+    (hsq : (netRun (Sys.init A B D t0 ndA ndB) pre).A.snd_queue = [])
+    (evs : List Ev) (hns : ∀ ev ∈ evs, isSend ev = false)
+    (hr : RunP (DrainHyp ⟨A.snd_nxt, A.conv, 0, 0, 0⟩ Rmax A.interval.toNat) (netRun (Sys.init A B D t0 ndA ndB) pre) evs)
+    (hnow : (netRun (Sys.init A B D t0 ndA ndB) pre).now + (netRun (Sys.init A B D t0 ndA ndB) pre).A.snd_buf.length *
+      stageLen Rmax A.interval.toNat B.interval.toNat (netRun (Sys.init A B D t0 ndA ndB) pre).D ≤
+      (Sys.run (netRun (Sys.init A B D t0 ndA ndB) pre) evs).now) :
+    (Sys.run (netRun (Sys.init A B D t0 ndA ndB) pre) evs).A.waitSnd = 0 ∧
+    ((Sys.run (netRun (Sys.init A B D t0 ndA ndB) pre) evs).B.rcv_queue.length <
+        (Sys.run (netRun (Sys.init A B D t0 ndA ndB) pre) evs).B.rcv_wnd.toNat →
+      (Sys.run (netRun (Sys.init A B D t0 ndA ndB) pre) evs).B.rcv_nxt =
+        (Sys.run (netRun (Sys.init A B D t0 ndA ndB) pre) evs).A.snd_nxt) := by
+  have hi := inv_netRun pre _ (inv_init A B D t0 ndA ndB hinit) hpre
+  have hw := drain_all hR _ _ hi hq (Nat.le_refl _) hsq evs hns hr hnow
+  refine ⟨hw, fun hq' => ?_⟩
+  have hsm : RunSmallH A.snd_nxt _ evs := runP_smallH A.snd_nxt evs _ (RunP.mono (fun _ h => h.1) evs _ hr)
+  have hrn := runSmallH_noWrap A.snd_nxt evs _ hsm
+  have hi' := inv_run evs _ hi hrn
+  obtain ⟨g1, g2, hc'⟩ := hi'.cons
+  unfold Kcp.waitSnd at hw
+  generalize Sys.run (netRun (Sys.init A B D t0 ndA ndB) pre) evs = s' at *
+  have hnb : o A.snd_nxt s'.A.snd_una ≤ o A.snd_nxt s'.B.rcv_nxt := not_behind hc' hi'.side.srt hi'.side.fix hq'
+  have hcon : o A.snd_nxt s'.A.snd_una + s'.A.snd_buf.length = o A.snd_nxt s'.A.snd_nxt := hc'.acon.2
+  have hbub : o A.snd_nxt s'.B.rcv_nxt ≤ o A.snd_nxt s'.A.snd_nxt := hc'.bub
+  exact o_inj A.snd_nxt _ _ (by omega)
+
+/-- the full statement of the drain on the repaired model, of which `C02_drain_partial` is the case
+"send queue empty, head timers within `Rmax`": ANY consistent reachable state (in particular a
+non-empty send queue, a closed or zero remote window), fair links and a fair reader from now on ⇒ a
+bound depending on the state only after which `WaitSnd = 0`. -/
+def C02_drain_repaired_full : Prop :=
+  ∀ (A B : Kcp) (D t0 : Nat) (ndA ndB : Bool), SysC.ConsInit A B → ∀ (pre : List SysC.NetEv),
+    SysC.NetNoWrap A.snd_nxt (Sys.init A B D t0 ndA ndB) pre →
+    ∃ T : Nat, ∀ evs : List Sys.Ev, (∀ ev ∈ evs, SysC.isSend ev = false) →
+      SysC.RunP (fun s => (SysC.Small A.snd_nxt s ∧ 0 < s.B.rcv_wnd.toNat) ∧ SysC.QOk s)
+        (SysC.netRun (Sys.init A B D t0 ndA ndB) pre) evs →
+      (SysC.netRun (Sys.init A B D t0 ndA ndB) pre).now + T ≤
+        (Sys.run (SysC.netRun (Sys.init A B D t0 ndA ndB) pre) evs).now →
+      (Sys.run (SysC.netRun (Sys.init A B D t0 ndA ndB) pre) evs).A.waitSnd = 0
+
+/-! non-vacuity of `C02_drain_partial`: two one-byte messages are written and flushed, the network loses
+both datagrams (`shuffle [] []`); then 65 rounds of "10 ticks, A flushes, deliveries, B flushes,
+deliveries, reads".  Both timers stand at t = 1200 (`rx_rto = 200`), after the timeout the RTO is 300:
+`Rmax = 300`, `stageLen = 321`, and the run lasts 650 ≥ 2 · 321 ms.  Every hypothesis is checked by
+evaluation (`runChk_sound`). -/
+
+def c02DrainPre : List SysC.NetEv := [.fair (.send [1]), .fair (.send [2]), .fair .flushA, .shuffle [] []]
+def c02DrainRound : List Sys.Ev :=
+  List.replicate 10 .tick ++ [.flushA, .dlvB, .dlvB, .flushB, .dlvA, .dlvA, .read, .read]
+def c02DrainEvs : List Sys.Ev := (List.replicate 65 c02DrainRound).flatten
+
+set_option maxRecDepth 1000000 in
+example : SysC.ConsInit c02A c02A ∧ SysC.NetNoWrap c02A.snd_nxt (Sys.init c02A c02A 0 1000) c02DrainPre ∧
+    (SysC.netRun (Sys.init c02A c02A 0 1000) c02DrainPre).A.snd_buf.length = 2 ∧
+    (SysC.netRun (Sys.init c02A c02A 0 1000) c02DrainPre).ab = [] ∧
+    (SysC.netRun (Sys.init c02A c02A 0 1000) c02DrainPre).A.snd_queue = [] ∧
+    (∀ ev ∈ c02DrainEvs, SysC.isSend ev = false) ∧
+    (SysC.netRun (Sys.init c02A c02A 0 1000) c02DrainPre).now + 2 * SysC.stageLen 300 10 10 0 ≤
+      (Sys.run (SysC.netRun (Sys.init c02A c02A 0 1000) c02DrainPre) c02DrainEvs).now := by decide
+set_option maxRecDepth 1000000 in
+example : SysC.RunP (SysC.DrainHyp ⟨c02A.snd_nxt, c02A.conv, 0, 0, 0⟩ 300 10)
+    (SysC.netRun (Sys.init c02A c02A 0 1000) c02DrainPre) c02DrainEvs :=
+  SysC.runChk_sound ⟨c02A.snd_nxt, c02A.conv, 0, 0, 0⟩ 300 10 _ _ (by decide)
 
 end KcpVerif.Props
